@@ -40,6 +40,7 @@ type recGen struct {
 	finErr     bool
 	imports    []string
 	silent     bool
+	initViaMerge bool // (v2) Init fails through a merged snippet writer; for the model: an Init error
 	log        *[]string
 }
 
@@ -64,10 +65,17 @@ func nsKeys(ns namer.NameSystems) string {
 // WriteString method when it has one) instead of Write
 var recViaWriteString = false
 
+// recWrapTracker: the hooks wrap the writer they are handed in an ErrorTracker of their own (as
+// generators commonly do) and write through that, unchecked
+var recWrapTracker = false
+
 func recEmit(w io.Writer, s string) {
-	if recViaWriteString {
+	switch {
+	case recWrapTracker:
+		generator.NewErrorTracker(w).Write([]byte(s))
+	case recViaWriteString:
 		io.WriteString(w, s)
-	} else {
+	default:
 		w.Write([]byte(s))
 	}
 }
@@ -98,6 +106,14 @@ func (g *recGen) PackageConsts(c *generator.Context) []string {
 }
 func (g *recGen) Init(c *generator.Context, w io.Writer) error {
 	*g.log = append(*g.log, tag("init", atom(g.name), nsKeys(c.Namers), ids(c.Order)))
+	if g.initViaMerge {
+		// the text goes through a snippet writer into which a failed side writer was merged: the
+		// generator returns what the writer reports at the end, as documented
+		if err := c13mergedInit(c, w, g.initOut); err != nil {
+			return fmt.Errorf("HOOK:%s:0: %v", g.name, err)
+		}
+		return nil
+	}
 	recEmit(w, g.initOut)
 	if g.initErr {
 		return fmt.Errorf("HOOK:%s:0", g.name)
@@ -141,7 +157,7 @@ func (g *recGen) sexp() string {
 		te = list(num(g.typeErr))
 	}
 	return list(atom(g.name), list(fl...), nm, atom(g.fileType), atom(g.fileName), atoms(g.vars), atoms(g.consts),
-		atom(g.initOut), boolS(g.initErr), atom(g.typeOut), te, atom(g.finOut), boolS(g.finErr), atoms(g.imports))
+		atom(g.initOut), boolS(g.initErr || g.initViaMerge), atom(g.typeOut), te, atom(g.finOut), boolS(g.finErr), atoms(g.imports))
 }
 
 type recTarget struct {
@@ -551,11 +567,14 @@ func c13(g *Gen) {
 				ctx := &generator.Context{Order: orderT, Namers: namer.NameSystems{}}
 				var dest io.Writer = fw
 				bodyCls := "through-Write"
-				if (hook+failAt)%2 == 0 {
+				switch (hook + failAt + 3) % 3 {
+				case 0:
 					dest, recViaWriteString, bodyCls = faultyStringWriter{fw}, true, "through-io.WriteString"
+				case 1:
+					recWrapTracker, bodyCls = true, "through-a-tracker-of-the-hook's-own"
 				}
 				err := ctx.ExecuteBody(dest, rg)
-				recViaWriteString = false
+				recViaWriteString, recWrapTracker = false, false
 				out := list()
 				if err != nil {
 					if m := reHook.FindStringSubmatch(err.Error()); m != nil {
@@ -576,9 +595,14 @@ func c13(g *Gen) {
 		c04run(g, c, "C13.exec", []string{"exec-nofault"})
 		for _, t := range c.targets {
 			for _, gg := range t.gens {
-				for h := 0; h < 3; h++ {
+				for h := 0; h < 4; h++ {
 					saved := *gg
 					switch h {
+					case 3:
+						if c04ver != 2 {
+							continue
+						}
+						gg.initViaMerge = true
 					case 0:
 						gg.initErr = true
 					case 1:
@@ -589,7 +613,11 @@ func c13(g *Gen) {
 					case 2:
 						gg.finErr = true
 					}
-					c04run(g, c, "C13.exec", []string{"exec-hook-fault", "fault-every-hook"})
+					hcls := []string{"exec-hook-fault", "fault-every-hook"}
+					if h == 3 {
+						hcls = append(hcls, "error-through-a-merged-snippet-writer")
+					}
+					c04run(g, c, "C13.exec", hcls)
 					*gg = saved
 				}
 			}
